@@ -18,6 +18,9 @@ CONSTANTS MAXW, MAXH,      \* framebuffers 1..MAXW x 1..MAXH
           BIGSET,          \* full rectangle / stream alphabet or the reduced one
           SAMPLE,          \* export every SAMPLE-th explored transition (0 = none)
           STREAMLEN,       \* > 0: only draw_iter, with every stream of that length or less over the cells (C03)
+          RING,            \* width of the ring of out-of-range positions around the display used when OOB
+          STOREORIENT,     \* FALSE: set_orientation as the pinned tree had it before the repair (never stored)
+          FILTERED,        \* FALSE: draw_iter as the pinned tree had it before the repair (negative control)
           TWOCOLOURS       \* every call draws from the colours {1, 2}: later calls repeat colours of earlier ones, which
                            \* is what state surviving between calls (staging buffers, bus caches) needs to show
 
@@ -55,7 +58,7 @@ Init == /\ cfg \in ValidCfgs
         /\ prog = <<>>
 
 LS == LogicalSize(cfg, o)
-Lo == IF OOB THEN -1 ELSE 0
+Lo == IF OOB THEN -RING ELSE 0
 Cells == (Lo .. LS[1] - 1 - Lo) \X (Lo .. LS[2] - 1 - Lo)
 InCells == (0 .. LS[1] - 1) \X (0 .. LS[2] - 1)
 Rects == IF BIGSET
@@ -76,7 +79,8 @@ Streams == IF STREAMLEN > 0 THEN AllStreams ELSE IF BIGSET
 
 \* one call: driver layer -> environment, abstract layer -> required picture, then the predicates
 Do(call) ==
-  LET r == DCall(d, call.name, call)
+  LET r0 == IF call.name = "draw_iter" /\ ~FILTERED THEN DDrawIterPrefix(d, call.px) ELSE DCall(d, call.name, call)
+      r == IF call.name = "set_orientation" /\ ~STOREORIENT THEN [r0 EXCEPT !.d.orient = d.orient] ELSE r0
       w1 == RunOps(w, r.ops)
       isO == call.name = "set_orientation"
       o1 == IF isO THEN [rot |-> call.rot, mir |-> call.mir] ELSE o
